@@ -119,6 +119,11 @@ func parseRelation(input *input, dependency *Dependency) error {
 		peek := input.Peek()
 		switch peek {
 		case 0, ',': /* EOF, or done with this relation! yay */
+			if len(ret.Possibilities) == 0 {
+				/* e.g. a lone "|": nothing was named, so there is
+				 * no relation to record */
+				return nil
+			}
 			dependency.Relations = append(dependency.Relations, *ret)
 			return nil
 		case '|': /* Next Possi */
